@@ -1,10 +1,75 @@
-(* C10 -- saving and reloading the array state is lossless.  Statements only; proofs in Codec/CodecProofs.v. *)
+(* C10 -- saving and reloading the array state is lossless.
+   Statements only; the proofs are in Codec/CodecProofs.v (per record), Codec/CodecRoundTrip.v (assembly),
+   Codec/CodecExample.v (concrete state, witnesses).  Model: Codec/CodecModel.v
+     decode : conf -> list N -> result cstate     state_read_content + the two checks of state_read
+     encode : N -> cstate -> list N               state_write_content + state_write_thread, first argument = time(0)
+     normalise : N -> cstate -> cstate            what a save followed by a load does to a state
+     wf : cstate -> Prop                          the invariants of a loaded / scanned array (CodecRoundTrip.wf)       *)
 From Coq Require Import NArith List.
-From Snap.Codec Require Import Varint CodecModel CodecProofs.
+From Snap.Codec Require Import Varint CodecModel CodecProofs CodecRoundTrip CodecExample.
 Import ListNotations.
 Local Open Scope N_scope.
 
+(* 1. Lossless: every well-formed state saved at a clock `now` (at least 8 seconds after the epoch) and loaded again under
+      its own configuration is accepted by the loader and is the normalised state: same files, sizes, time stamps,
+      inodes, block map, block states, hashes, links, directories, DELETED blocks at used positions, parity records;
+      info of unused positions cleared, info times clamped to `now`, maps of empty disks dropped. *)
+Theorem C10_decode_encode : forall now s, wf s -> 8 <= now ->
+  decode (conf_of s) (encode now s) = Ok (normalise now s).
+Proof. exact decode_encode_rt. Qed.
+Print Assumptions C10_decode_encode.
+
+(* the hypotheses are satisfiable on a state with BLK / CHG / REP / DELETED blocks, a hole, bad / rehash / just-synced
+   marks, names with newline, colon, bytes >= 0x80, 64 bit extremes, a multi-file parity, a map of an empty disk *)
+Example C10_wf_satisfiable : wf ex_state /\ 8 <= T0 + 3.
+Proof. split; [exact ex_wf|vm_compute; discriminate]. Qed.
+Example C10_example_computed : decode (conf_of ex_state) (encode (T0 + 3) ex_state) = Ok (normalise (T0 + 3) ex_state).
+Proof. exact ex_roundtrip_computed. Qed.
+Example C10_example_effect :
+  c_info (normalise (T0 + 3) ex_state) = [T0 + 4; T0 + 1; T0 - 80 + 2; 0]
+  /\ map cm_name (c_maps (normalise (T0 + 3) ex_state)) = [[100;50]; [100;49]]
+  /\ c_disks (normalise (T0 + 3) ex_state) = c_disks ex_state
+  /\ c_parity (normalise (T0 + 3) ex_state) = c_parity ex_state
+  /\ c_prevhash (normalise (T0 + 3) ex_state) = H_MURMUR3.
+Proof. exact ex_normalise_effect. Qed.
+
+(* 2. Every content copy gets the same bytes: the writer is a function of the state and of the clock only. *)
 Theorem C10_copies_identical : forall now s paths p1 p2 b1 b2,
   In (p1, b1) (write_copies now s paths) -> In (p2, b2) (write_copies now s paths) -> b1 = b2.
 Proof. exact copies_identical. Qed.
 Print Assumptions C10_copies_identical.
+
+(* 3. Rewriting.  FULL statements (not proved in general): *)
+Definition normalise_idempotent_statement : Prop :=
+  forall now s, wf s -> 8 <= now -> normalise now (normalise now s) = normalise now s.
+Definition normalise_wf_statement : Prop :=
+  forall now s, wf s -> 8 <= now -> wf (normalise now s).
+Definition rewrite_fixpoint_statement : Prop :=
+  forall now s, wf s -> 8 <= now ->
+    decode (conf_of s) (encode now (normalise now s)) = Ok (normalise now s)
+    /\ forall s', decode (conf_of s) (encode now (normalise now s)) = Ok s' -> encode now s' = encode now (normalise now s).
+(* PROVED: the fixpoint statement for every state on which the two others hold (the missing part is exactly
+   normalise_idempotent_statement and normalise_wf_statement; both are evaluated on every generated state by the check,
+   command `fixpoint` of the extracted model, and hold on the example below) *)
+Theorem C10_rewrite_fixpoint_partial : forall now s, wf s -> 8 <= now ->
+  wf (normalise now s) -> normalise now (normalise now s) = normalise now s ->
+  decode (conf_of s) (encode now (normalise now s)) = Ok (normalise now s)
+  /\ forall s', decode (conf_of s) (encode now (normalise now s)) = Ok s' -> encode now s' = encode now (normalise now s).
+Proof. exact rewrite_fixpoint_partial. Qed.
+Print Assumptions C10_rewrite_fixpoint_partial.
+Example C10_rewrite_fixpoint_example :
+  wf (normalise (T0 + 3) ex_state) /\ normalise (T0 + 3) (normalise (T0 + 3) ex_state) = normalise (T0 + 3) ex_state.
+Proof. split; [exact ex_wf_normalised|exact ex_idempotent]. Qed.
+
+(* 4. FINDING.  "Rewriting a content file produced by the tool reproduces it byte for byte" is FALSE for a file saved at a
+      clock behind one of its info times: the stored time is clamped to the clock, the reloaded one is the clamped time
+      rounded down to 8 seconds.  Same decoded state, different bytes.  Replayed on the binary by the check
+      (route A `rewrite_past`, route B states with future times). *)
+Theorem C10_rewrite_reproduces_refuted :
+  exists now s, wf s /\ 8 <= now /\
+    exists s', decode (conf_of s) (encode now s) = Ok s' /\ encode now s' <> encode now s.
+Proof. exact rewrite_reproduces_refuted. Qed.
+Print Assumptions C10_rewrite_reproduces_refuted.
+(* with a clock that is not behind, the bytes are reproduced (instance) *)
+Example C10_rewrite_reproduces_example : encode (T0 + 100) (normalise (T0 + 100) ex_state) = encode (T0 + 100) ex_state.
+Proof. exact ex_rewrite_reproduces. Qed.
